@@ -27,7 +27,6 @@ JUSTIFIED = {
     ("staking::execute::ibc_transfer_msg", "unwrap", "IbcTimeout::timestamp(IbcTimeout::with_timestamp)"): ("a timeout built with with_timestamp always has a timestamp", "timeout-built-with-timestamp"),
     ("staking::execute::execute_liquid_unstake::{closure#1}", "unwrap", "param"): ("BATCHES.update on the pending batch id: the pending batch always exists (C06.R1 pairing of PENDING_BATCH_ID with BATCHES.save)", None),
     ("staking::execute::update_oracle_msgs", "unwrap", "serde_json::to_string"): ("serialising an enum of three Strings cannot fail", None),
-    ("staking::execute::execute_withdraw", "unwrap", "payload(Map::load(batches)).received_native_unstaked"): ("status == Received (checked above) implies received_native_unstaked is Some: the only site that sets Received sets it in the same save", "received-set-with-status"),
     ("staking::state::remove_unstake_request", "unwrap", "IndexedMap::remove(unstake_requests)"): ("IndexedMap::remove fails only if the stored record does not deserialise", None),
 }
 # justifications that do not depend on the enclosing function (the fact they rest on is global):
@@ -116,7 +115,7 @@ def bounds_ok(prog, c, bi, t):
 def run(R, env):
     prog = env.prog("default")
     R.rule("C16.R1", "inventory: every unwrap / expect / index / slice / explicit panic construct in non-derive code reachable from the entry points of both contracts is listed and must be discharged by R2")
-    R.rule("C16.R2", "each site matches an idiom: (I1) unreachable in the world where its subject is None/Err (dominated by the matching test of the same value); (I1') strip_prefix(s, lit).unwrap() behind starts_with(s, lit); (I2) index / last().unwrap() unreachable when the collection is empty (directly or through a callee that rejects empty input), full-range slices are total; (I3) checked_sub(a, b).unwrap() unreachable in the world a < b; (I4) a line of the reviewed justification table, with its structural obligation where one exists")
+    R.rule("C16.R2", "each site matches an idiom: (I1) unreachable in the world where its subject is None/Err (dominated by the matching test of the same value); (I1') strip_prefix(s, lit).unwrap() behind starts_with(s, lit); (I2) index / last().unwrap() unreachable when the collection is empty (directly or through a callee that rejects empty input), full-range slices are total; (I3) checked_sub(a, b).unwrap() unreachable in the world a < b; (I5) <batch>.received_native_unstaked.unwrap() reachable only behind <batch>.status == Received (the save that marks a batch Received stores Some(amount), obligation I4:received-set-with-status); (I4) a line of the reviewed justification table, with its structural obligation where one exists")
     R.rule("C16.R3", "an unwrap of an Option that is a configuration field validation allows to be absent (oracle_address, treasury_address) is never accepted through I4")
     R.rule("C16.R4", "no explicit panic!/unreachable!/assert! is reachable from an entry point; the detector is exercised on a committed positive-control body on every run")
     R.rule("C16.R5", "division sites (multiply_ratio, Decimal::from_ratio): the denominator is a non-zero constant, or the site is unreachable in the world denominator.is_zero(), or it is in the reviewed table with its reason")
@@ -199,6 +198,16 @@ def run(R, env):
                     w = c.with_removed(rem).settle()
                     if n >= 1 and bi not in w.T.reach:
                         how = "I3"
+                if how is None and subj[0] == "field" and subj[2] == "received_native_unstaked" and UNWRAPS[nm] == "none":
+                    # I5: `<batch>.received_native_unstaked.unwrap()` where the site is reachable only with
+                    # <batch>.status == Received (== / != / match, in this body): the only save that marks a batch
+                    # Received stores Some(amount) with it (obligation I4:received-set-with-status below)
+                    from engine.analysis import pass_edges as _pe, fail_world as _fw
+                    X_ = norm(subj[1])
+                    G5 = shared.status_guard(lambda x, X_=X_: norm(x) == X_, "Received")
+                    e5 = _pe(c, G5, prog, env.depth, [])
+                    if e5 and bi not in _fw(c.with_removed(e5), G5).settle().T.reach:
+                        how = "I5"
                 d = descr(prog, subj)
                 cfg_opt = any(loaded_field(prog, s_, "config", p, "staking") for s_ in subterms(subj) for p in (["protocol_chain_config", "oracle_address"], ["protocol_fee_config", "treasury_address"])) or (field_path(subj)[1][-1:] in (["oracle_address"], ["treasury_address"]))
                 if how is None and cfg_opt:
